@@ -427,6 +427,27 @@ func polygonPairs(c *mon.Case) {
 		island = gen.RegularSpec(ctr, 5+r.Intn(20), hole.RMin*0.4, r.Float64()*7)
 		loops = append(loops, island.Vs)
 	}
+	// a lake in the island (nesting depth 3) and far-away extra shells (so that the largest shell is not
+	// necessarily the polygon's first loop)
+	var lake gen.LoopSpec
+	hasLake := hasIsland && r.Intn(2) == 0
+	if hasLake {
+		lake = gen.RegularSpec(ctr, 5+r.Intn(20), island.RMin*0.4, r.Float64()*7)
+		loops = append(loops, lake.Vs)
+	}
+	var extras []gen.LoopSpec
+	if R < 0.4 && r.Intn(2) == 0 {
+		az0 := r.Float64() * 2 * math.Pi
+		for k := 0; k < 1+r.Intn(2); k++ { // on opposite sides of the main shell, so that they cannot meet each other
+			rs := R * (0.05 + 0.1*r.Float64())
+			x, y, z := gen.Frame(ctr)
+			cc := gen.AtPolar(x, y, z, shell.RMax+2*R+rs, az0+math.Pi*float64(k))
+			ex := gen.RegularSpec(cc, 3+r.Intn(10), rs, r.Float64()*7)
+			extras = append(extras, ex)
+			loops = append(loops, ex.Vs)
+			c.Count("polygons.extra_shells", 1)
+		}
+	}
 	build := func(ls [][]s2.Point) *s2.Polygon {
 		var x []*s2.Loop
 		for _, k := range r.Perm(len(ls)) {
@@ -448,7 +469,24 @@ func polygonPairs(c *mon.Case) {
 	if hasIsland {
 		islandR = island.RMax
 	}
-	switch r.Intn(5) {
+	conc := func(name string, lo, hi float64, contains bool) { // Q concentric with the rings, its boundary in the band (lo, hi)
+		pl = place{name, 0, lo + (hi-lo)*(0.35+0.3*r.Float64()), contains, true, true}
+	}
+	switch r.Intn(8) {
+	case 5: // Q's boundary lies in the body and Q swallows the hole (with island, lake)
+		conc("around-hole", hole.RMax, shell.RMin, false)
+	case 6:
+		if hasIsland { // boundary in the hole, Q swallows the island
+			conc("around-island", island.RMax, hole.RMin, false)
+		} else {
+			conc("around-hole", hole.RMax, shell.RMin, false)
+		}
+	case 7:
+		if hasLake { // boundary in the island, Q swallows the lake (a hole at depth 3)
+			conc("around-lake", lake.RMax, island.RMin, false)
+		} else {
+			conc("around-hole", hole.RMax, shell.RMin, false)
+		}
 	case 0: // inside the body
 		w := (bodyHi - bodyLo)
 		rq := w * 0.3 * (0.1 + 0.8*r.Float64())
@@ -471,6 +509,29 @@ func polygonPairs(c *mon.Case) {
 		return
 	}
 	q := gen.RegularSpec(gen.Near(r, ctr, pl.d), 4+r.Intn(40), pl.rq, r.Float64()*7)
+	if len(extras) > 0 && r.Intn(4) == 0 { // Q inside one of the far-away extra shells
+		ex := extras[r.Intn(len(extras))]
+		pl = place{"in-extra-shell", 0, ex.RMin * 0.4, true, true, true}
+		q = gen.RegularSpec(gen.Near(r, ex.Center, ex.RMin*0.3*r.Float64()), 3+r.Intn(10), pl.rq, r.Float64()*7)
+		c.Count("polygons.q_in_extra_shell", 1)
+	}
+	if len(pl.name) > 6 && pl.name[:6] == "around" {
+		q = gen.RegularSpec(ctr, 24+r.Intn(40), pl.rq, r.Float64()*7)
+		c.Count("polygons.concentric_"+pl.name, 1)
+		// the whole boundary of Q must lie strictly inside its band
+		var lo, hi float64
+		switch pl.name {
+		case "around-hole":
+			lo, hi = hole.RMax, shell.RMin
+		case "around-island":
+			lo, hi = island.RMax, hole.RMin
+		default:
+			lo, hi = lake.RMax, island.RMin
+		}
+		if !(q.RMin > lo*1.01 && q.RMax < hi*0.99) {
+			pl.known = false
+		}
+	}
 	// "across" placements need the small loop to really reach both sides: its inner radius must exceed the band half-width
 	if pl.name == "across-shell" && q.RMin <= (shell.RMax-shell.RMin)/2 {
 		pl.known = false
@@ -512,6 +573,12 @@ func polygonPairs(c *mon.Case) {
 		c.Violation("Polygon/law/Contains-iff-complements-reversed/wrong-answer", fmt.Sprintf("P.Contains(Q)=%v but ~Q.Contains(~P)=%v", pc, got), det)
 	}
 	if !P.Contains(P) || !P.Intersects(P) {
-		c.Violation("Polygon/law/contains-intersects-itself/wrong-answer", "the annulus does not contain/intersect itself", det)
+		var all [][]string
+		for _, l := range loops {
+			all = append(all, gen.HexAll(l...))
+		}
+		det["loops"] = all
+		det["contains_itself"], det["intersects_itself"] = P.Contains(P), P.Intersects(P)
+		c.Violation("Polygon/law/contains-intersects-itself/wrong-answer", "the polygon does not contain/intersect itself", det)
 	}
 }
